@@ -308,7 +308,7 @@ pub fn run(ctx: &mut Ctx) -> Result<(), Violation> {
     ctx.rule = "cases = (counting form, operand lists as truth-table functions on ids, bound). Exhaustive: every list of <= 3 operands drawn from the 16 functions of 2 variables (ids {0,1}) x every API bound in {-3..len+3, i64::MIN+len, i64::MIN+len+1, i64::MAX-1, i64::MAX} x aln/amn/exn; \
                 every pair of lists of <= 2 such operands x the five list-vs-list forms; the same lists through `[..] op n` text for the five operators with n in {0..len+2} plus leading-zero, 2^31, 2^32, 2^63-2, 2^63-1, 2^63, 2^64-2, 2^64-1 constants. \
                 Random: lists of <= 6 operands of <= 3 variables over ids 0..4 with repeated operands. Oracle: per assignment, the number of true operands (i128) compared with the bound / the other count. \
-                Non-trivial = a list of >= 2 operands with a repeated or compound (>= 2 variable) operand, or a bound outside 0..len; distinct by serialized case."
+                Non-trivial = a list of >= 2 operands with a repeated or compound (>= 2 variable) operand, or a bound outside 0..len; distinct by serialized case. Operand provenance: created in the environment through mk_choice (default), or - in a share of the random cases and in dedicated stages - plain values that belong to no environment / nodes of another environment (what BDD::<usize>::from(named) and the repository's own parser tests produce)."
         .to_string();
     ctx.assume("API bounds are restricted to n with n +/- len inside i64 (the property's domain)");
     ctx.assume("language constants are restricted to values the syntax accepts (<= usize::MAX)");
